@@ -250,7 +250,19 @@ if __name__ == "__main__":
                     out.append(e)
             return out
 
-    main("C06", [PurityStream(), MonitorReread(), LaterBuiltStream(), BlockHistory()],
+    import c02
+
+    class ResolveAfterEdit(c02.HierStream):
+        """a hierarchy is solved, one of its (shared) sub-solvers is edited, and the parent is solved again: the second
+        answer must be the one of the edited circuit, whatever the first solve left behind (the stream of C02, only the
+        edited cases)"""
+        name = "resolve_after_edit"
+
+        def generate(self, rng, tier):
+            out = [d for d in super().generate(rng, tier) if d.get("edit")]
+            return out[:60 if tier == "quick" else 800]
+
+    main("C06", [PurityStream(), MonitorReread(), LaterBuiltStream(), BlockHistory(), ResolveAfterEdit()],
          level_text="props/C06.v; the tie solves a hierarchy and its (shared) sub-solvers in random order with random "
                     "argument subsets, keeps every result alive, reads each result right after its call and again after all "
                     "later calls, and compares both readings with the model's history-free value for that call; spy leaves "
